@@ -11,8 +11,8 @@ import (
 	"sync/atomic"
 
 	"capnproto.org/go/capnp/v3"
-	"capnproto.org/go/capnp/v3/zverif/common"
 	rpccp "capnproto.org/go/capnp/v3/std/capnp/rpc"
+	"capnproto.org/go/capnp/v3/zverif/common"
 )
 
 const ifaceID uint64 = 0xf00dfeedf00dfeed
